@@ -32,7 +32,8 @@ RULE = ("(a) seeded nestings (depth <= 6, <= 40 nodes) of the three context mana
         "assemblies cut by the real watchdog, and product chains ('x1 = x0*x0 / x2 = x1*x1 / ... / x0 = 1' valid, undefined, ring, overflow; plain or interrupted) that "
         "leave many entries in try_compute.not_ready_yet, followed by a probe (valid, faulty, multi-file, product chain over the same names) compared with a fresh process; "
         "(c) every probe (incl. programs with groups of 2-5 equal-valued labels / constants under random names) under PYTHONHASHSEED 0..15 and a random seed, "
-        "comparing outcome, base, bytes, diagnostics and the listing text; and the command line with --lst -o under the same seeds, comparing every file written. non-trivial = distinct (history kinds, probe) with >= 1 non-valid item, "
+        "comparing outcome, base, bytes, diagnostics and the listing text; and the command line with --lst -o under the same seeds (also programs with 2-4 make_* "
+        "directives of different formats on ONE file, spelt in ways that normalise to the same path: the last in source order must win), comparing every file written. non-trivial = distinct (history kinds, probe) with >= 1 non-valid item, "
         "or a distinct nesting that raises or returns through >= 1 context manager")
 LEVEL_TEXT = ("Coq theorems over the __enter__/__exit__ steps regenerated from deferred.py / reports.py on every run: every nesting of the three context "
               "managers, with bodies that finish, return or raise anything anywhere (including __enter__ raising on a cycle and a nested handler's "
@@ -672,11 +673,42 @@ def history_part(rep, rng, nprobes, nhist_per_probe, maxlen, seeds):
                     "probe_result_equals_fresh": "error" not in r and r["probe_result"] == ref[j["pi"]]})
 
 
+def alias_program(rng):
+    """Several make_* directives that write the SAME file (also through paths that normalise to it), in different formats:
+    in source order the last one wins, whatever the hash seed."""
+    target = rng.choice(["image.dat", "out/img", "a.bin"])
+    spell = {"image.dat": ["image.dat", "./image.dat", "out/../image.dat"], "out/img": ["out/img", "./out/img", "out/./img"],
+             "a.bin": ["a.bin", "./a.bin", "out/../a.bin"]}[target]
+    fmts = ["make_bin", "make_raw", "make_bk0010_rom", "make_raw", "make_bin"]
+    rng.shuffle(fmts)
+    n = rng.randint(2, 4)
+    makes = [f'{fmts[j]} "{rng.choice(spell)}"' for j in range(n)]
+    if fmts[n - 1] == fmts[n - 2]:
+        makes[-1] = ('make_raw' if fmts[n - 1] != "make_raw" else "make_bin") + f' "{rng.choice(spell)}"'
+    other = ['make_raw "other.raw"'] if rng.random() < 0.5 else []
+    body, _ = gen_program(rng, "a")
+    lines = body.rstrip("\n").split("\n")
+    placed = makes + other
+    where = sorted(rng.randrange(len(lines) + 1) for _ in placed)
+    out = []
+    for i in range(len(lines) + 1):
+        out += [m for m, w in zip(placed, where) if w == i]
+        if i < len(lines):
+            out.append(lines[i])
+    # the same program keeping, of the directives on the shared file, only the last one in source order
+    last = [m for m in out if m in makes][-1]
+    only_last = [l for l in out if l not in makes or l is last]
+    return "\n".join(out) + "\n", "\n".join(only_last) + "\n", target
+
+
 def cli_hash_part(rep, rng, nprobes, seeds):
     """The command line itself (`--lst -o out.bin`) under every hash seed: status, files and bytes (image and listing) must be identical."""
-    progs = []
+    progs, only_last = [], {}
     for i in range(nprobes):
-        if i % 3 != 2:
+        if i % 2 == 1:
+            text, last_text, target = alias_program(rng)
+            only_last[i] = (last_text, target)
+        elif i % 4 == 0:
             text = equal_values_program(rng)
         else:
             text, _ = gen_program(rng, "c", warns=1)
@@ -685,7 +717,10 @@ def cli_hash_part(rep, rng, nprobes, seeds):
 
     def one(i):
         d = os.path.join(G.SCRATCH, "hash", f"h{i}")      # the same absolute path for every seed: the listing names the source file
-        return [G.run_cli(d, {"a.mac": progs[i]}, False, [], ["--report-format", "bare", "--lst", "-o", "out.bin", "a.mac"], hashseed=s) for s in seeds]
+        runs = [G.run_cli(d, {"a.mac": progs[i]}, False, [], ["--report-format", "bare", "--lst", "-o", "out.bin", "a.mac"], hashseed=s) for s in seeds]
+        if i in only_last:
+            runs.append(G.run_cli(d, {"a.mac": only_last[i][0]}, False, [], ["--report-format", "bare", "--lst", "-o", "out.bin", "a.mac"], hashseed=seeds[0]))
+        return runs
     try:
         with ThreadPoolExecutor(max_workers=C.NPROC) as ex:
             allruns = list(ex.map(one, range(nprobes)))
@@ -694,6 +729,18 @@ def cli_hash_part(rep, rng, nprobes, seeds):
     for i, runs in enumerate(allruns):
         ref = runs[0]
         rep.nontrivial(("cli-hash", progs[i]))
+        if i in only_last:
+            # source order decides: the shared file holds what the LAST directive on it writes (model: C07_emit_last_writer_wins_partial)
+            lastrun = runs.pop()
+            target = only_last[i][1]
+            rep.add_eval()
+            rep.count("cli-alias-program")
+            if ref["status"] == 0 and (lastrun["status"] != 0 or ref["contents"].get(target) != lastrun["contents"].get(target)):
+                rep.violate("cli-alias-last-writer:" + target, "several make_* directives write one file: it does not hold the output of the last directive in source order",
+                            {"cli_source": progs[i], "cli_source_last_only": only_last[i][0], "file": target, "argv": ["--report-format", "bare", "--lst", "-o", "out.bin", "a.mac"],
+                             "hashseeds": [seeds[0], seeds[0]]},
+                            expected={"file": lastrun["contents"].get(target)}, observed={"file": ref["contents"].get(target)},
+                            replay="props.c07.run_cli on cli_source and on cli_source_last_only; compare <file>")
         for s, r in zip(seeds, runs):
             rep.add_eval()
             rep.count("cli-hashseed-run:" + ("ok" if r["status"] == 0 else "status%d" % r["status"]))
@@ -707,14 +754,15 @@ def cli_hash_part(rep, rng, nprobes, seeds):
                             expected={"status": ref["status"], "files": ref["contents"]}, observed={"status": r["status"], "files": r["contents"]},
                             replay="props.c07.run_cli(dir, {'a.mac': cli_source}, False, [], argv, hashseed=..)")
                 break
-    rep.exhaustive_parts.append(f"{nprobes} programs with groups of equal-valued symbols through the command line with --lst -o under PYTHONHASHSEED in {list(seeds)}")
+    rep.exhaustive_parts.append(f"{nprobes} programs (groups of equal-valued symbols; several make_* directives on one file, incl. paths that normalise to it) "
+                                f"through the command line with --lst -o under PYTHONHASHSEED in {list(seeds)}, every written file compared")
 
 
 def explore(rep, br, tier, seed):
     rng = random.Random(seed)
     nest_part(rep, rng, 600 if tier == "quick" else 12000)
     seeds = [str(s) for s in range(16)] + ["random"]
-    cli_hash_part(rep, rng, 6 if tier == "quick" else 40, seeds)
+    cli_hash_part(rep, rng, 8 if tier == "quick" else 40, seeds)
     if tier == "quick":
         history_part(rep, rng, nprobes=10, nhist_per_probe=6, maxlen=50, seeds=seeds)
     else:
@@ -751,6 +799,15 @@ def replay(data):
         o = run_nest(tup(inp["nesting"]), inp["start_depth"], inp["n_ids"])
         print("observed now:", o)
         return o["depth"] == inp["start_depth"] and not o["awaiting"] and not o["handlers"] and not any(o["flags"])
+    if "cli_source_last_only" in inp:
+        d = os.path.join(G.SCRATCH, "hash", "replay")
+        try:
+            a = G.run_cli(d, {"a.mac": inp["cli_source"]}, False, [], inp["argv"], hashseed=inp["hashseeds"][0])
+            b = G.run_cli(d, {"a.mac": inp["cli_source_last_only"]}, False, [], inp["argv"], hashseed=inp["hashseeds"][0])
+        finally:
+            G.cleanup()
+        print(a["contents"].get(inp["file"]), b["contents"].get(inp["file"]))
+        return a["contents"].get(inp["file"]) == b["contents"].get(inp["file"])
     if "cli_source" in inp:
         d = os.path.join(G.SCRATCH, "hash", "replay")
         try:
